@@ -19,7 +19,9 @@ CLAIMS = {
  "C04": ("Theorem C04_combinators: each of merge, zip, combine_latest, with_latest_from, take_until, skip_until, sample, buffer, as a "
          "state machine over an arbitrary merged timeline, equals its streaming definition (what each arrival releases, where the output "
          "ends) and is silent afterwards (C04_silent_after_end); closed forms for merge and take_until. Each run executes all pairs of "
-         "scripts <= 3 items x all interleavings x local and _threads forms, plus cold inputs in every position, on the crate.",
+         "scripts <= 3 items x all interleavings x local and _threads forms, plus cold inputs in every position, on the crate; and the "
+         "_threads forms driven by two or three real threads under every schedule with <= 2 context switches at mutex granularity: what is "
+         "delivered must be the definition's output for some merge of the threads' calls (linearizability).",
          "DESIGN.md section 5 C04"),
  "C06": ("Theorem C06_subject_refines: for every history (any length, any number of subscribers) of subscribe / unsubscribe-one / "
          "next / next-with-subscription-inside-a-callback / error / complete / clone / retain / unsubscribe-subject and queries, the "
@@ -58,7 +60,9 @@ CLAIMS = {
          "outer order, completion exactly when done / no starvation, items exactly once). C05_items_exactly_once (every notification of a subscribed "
          "hot inner observable owes exactly one item per subscription, a synchronous inner observable its whole script, and no item occurs that "
          "is not owed - walked with a state computed from stimuli and subscription events only), C05_subscribed_in_outer_order, "
-         "C05_concat_keeps_outer_order (limit 1: no other inner observable's item inside an inner observable's turn).", "DESIGN.md section 5 C05"),
+         "C05_concat_keeps_outer_order (limit 1: no other inner observable's item inside an inner observable's turn). Two or three real threads "
+         "driving the outer stream, hot inner observables and an unsubscription of merge_all_threads under every schedule with <= 2 context "
+         "switches: no deadlock / panic / hang, grammar, every inner observable's items at most once and in order.", "DESIGN.md section 5 C05"),
  "C19": ("Theorems on the scheduler bookkeeping model (Remote::poll, the delay/timer stages of Scheduler::schedule, RepeatTask, "
          "TaskHandle) for one task followed through EVERY sequence of polls, clock advances, cancellations and queries: C19_once_at_most_once, "
          "C19_never_before_delay, C19_repeat_ticks (consecutive sequence numbers, first tick >= one period after scheduling, later ticks >= "
@@ -110,7 +114,8 @@ CLAIMS = {
          "unsubscribe' and compared with the model. On the pinned tree throttle with a trailing edge delivered after unsubscribe (fixed, "
          "50c4f28). The _threads clause: an unsubscribing thread against emitting threads on SubjectThreads under every schedule with <= 3 "
          "context switches (lock-level model Ileave.v against real threads parked before every mutex), judged by 'no call of the subscriber "
-         "after its unsubscribe() returned'; other thread-safe pipelines are not enumerated. share()/ref_count is decided under C11.", "DESIGN.md section 5 C02"),
+         "after its unsubscribe() returned'; likewise an unsubscribing thread against emitting threads on the two-input _threads operators, "
+         "merge_all_threads and finalize_threads. share()/ref_count is decided under C11.", "DESIGN.md section 5 C02"),
  "C17": ("Theorems: C17_closed_sound (every scheduler-using operator / time source, every reachable state: is_closed() = true implies no "
          "subscriber call under any continuation); for the subscription algebra under EVERY history of append / unsubscribe / is_closed / leaf "
          "termination: C17_late_additions (a leaf appended to an unsubscribed composite is torn down at once), C17_algebra_closed_sound "
@@ -128,8 +133,11 @@ CLAIMS = {
          "timeline), C01_flattening (merge_all family, any outer/inner behaviour), C01_groups (every group of group_by), C01_closure_idiom / "
          "_grammar (.on_error(f).on_complete(g).subscribe(h) sees exactly the trace). Each run executes ~2e4 (thorough 2.5e5) random trees of depth "
          "<= 3 (4) with adversarial call sequences on the real crate, with the probe and with the closure idiom, judges the implementation's "
-         "trace with the grammar predicate and compares it with the model's execution of the same tree. Scheduler-using operators are not "
-         "nodes of these trees (their traces are judged under C02 / C07-C09).", "DESIGN.md section 5 C01"),
+         "trace with the grammar predicate and compares it with the model's execution of the same tree. Scheduler-using operators and time "
+         "sources: C01_timed_grammar (delay, observe_on, delay_subscription, subscribe_on, debounce, throttle, buffer_with_time, "
+         "buffer_with_count_and_time, interval, interval_at, timer between a hot input and the subscriber, EVERY label sequence - polls in any "
+         "order, input events after its terminal, late timers) and C01_timed_predicates_imply_grammar (every trace accepted by the predicates "
+         "that judge the implementation under C02 / C07-C09 has the shape); they are single nodes, not composed into the trees.", "DESIGN.md section 5 C01"),
  "C10": ("Theorems over a lock-level model (threads = programs of lock / unlock / enter-callback / leave-callback actions, any schedule): "
          "C10_no_deadlock (programs that lock only upwards in the rank order upstream -> downstream, observer list -> chamber -> subscriber "
          "cells, and unlock in reverse order never deadlock: any number of threads, any programs, any schedule), C10_callbacks_are_exclusive "
@@ -142,7 +150,11 @@ CLAIMS = {
          "value cell, who holds what) is run against real threads driven by a cooperative controller through the lock_gate hook: every "
          "schedule with <= 3 context switches (2 for three threads) for 24 sets of scripts (next, complete, error, subscribe, unsubscribe, "
          "unsubscribe the subject, peek) plus random schedules; every acquisition and callback is compared with the model and the trace is "
-         "judged for deadlock, panic, overlapping callbacks, common order, exactly-once. PARTIAL: merge_all, share, observe_on and delay "
+         "judged for deadlock, panic, overlapping callbacks, common order, exactly-once. The same controller drives merge_threads, "
+         "zip_threads, combine_latest_threads, with_latest_from_threads, take_until_threads, skip_until_threads, sample_threads, "
+         "merge_all_threads(1|2|unbounded) and finalize_threads pipelines with 2-3 threads, an unsubscribing one included (deadlock, panic, "
+         "a call that does not return, overlap, grammar, silence after unsubscribe; two-input operators tied to the sequential model by "
+         "linearizability). PARTIAL: the lock-level model with theorems for all schedules covers the subjects; share, observe_on and delay "
          "pipelines are covered by the stress runs and the general theorems only; the lost-wake-up clause is C14_no_lost_wakeup.", "DESIGN.md section 5 C10"),
  "C11": ("Theorems (share / publish built on the subject machine of C06, upstream a counted subscription and a tap): "
          "C11_source_subscribed_at_most_once (any history, any number of subscribers, hot or cold source), C11_nothing_before_connection "
@@ -198,8 +210,10 @@ CLAIMS = {
          "for finalize_threads, any interleaving of any number of threads each taking the shared cell runs the callback exactly once, in the "
          "first take. Each run executes every stimulus sequence <= 5 (thorough 7) over a subject and every create() script <= 4 (6), 7 "
          "shapes, finalize and finalize_threads, explicit unsubscribe and dropped guard, with the callback's position observed through "
-         "per-stimulus markers, judged by the extracted predicate and compared with the model. PARTIAL for the racing clause: the atomicity of "
-         "the take (Mutex in MutArc) is modelled, not verified; real-thread rounds (terminating thread vs unsubscribing thread) sample it.",
+         "per-stimulus markers, judged by the extracted predicate and compared with the model. The racing clause on real threads: "
+         "finalize_threads with a terminating, an unsubscribing and a second terminating thread under every schedule with <= 2 context "
+         "switches (threads parked before every mutex and inside the callbacks): the callback exactly once, not before the terminal it "
+         "follows was delivered. The atomicity of the take (Mutex in MutArc) is modelled in the theorem, exercised by those schedules.",
          "DESIGN.md section 5 C15"),
 }
 
